@@ -31,7 +31,14 @@ CaseResult judge(const fe::Obs &o, const std::string &kind)
     h = mix(h, (uint64_t) f.side | (uint64_t) f.index << 1 | (uint64_t) f.fn << 12 | (uint64_t) f.err << 20 | (uint64_t) f.kind << 30);
     if (i < o.fired.size() && o.fired[i]) {
       any_fired = true;
-      if (f.kind == VS_FK_ERRNO) allowed.push_back(f.err);
+      // A close() that fails after another call of the same side had already failed is part of the clean-up of that
+      // failure: what it reports is not why the program could not be run.
+      bool cleanup_close = false;
+      if (f.fn == VS_CLOSE && f.index >= 0)
+        for (size_t k = 0; k < o.faults.size(); k++)
+          if (k != i && k < o.fired.size() && o.fired[k] && o.faults[k].side == f.side && o.faults[k].fn != VS_CLOSE && o.faults[k].index >= 0 && o.faults[k].index < f.index && o.faults[k].kind == VS_FK_ERRNO && o.faults[k].err != EINTR) cleanup_close = true;
+      if (cleanup_close) res.cls("close-fails-during-clean-up");
+      if (f.kind == VS_FK_ERRNO && !cleanup_close) allowed.push_back(f.err);
       if (f.kind == VS_FK_VALUE) allowed.push_back(EMFILE);  // the "too many descriptors to close" refusal
       res.cls(std::string("fault:") + vs_fn_name[f.fn] + (f.side == VS_CHILD ? "@child" : "@parent"));
     }
